@@ -408,6 +408,18 @@ def run(model: RepoModel, rep, tier: str):
                         "parameters unchanged forwards all of them", 2)
     generic2.check_recursion_forwarding(model, rep, "C01.R12", ["events/default_event_handlers/basic.py", "events/default_event_handlers/add_var_decl.py",
                                                               "lang/common_parser.py"])
+    # ------------------------------------------------------------------ R14..R16 (round 6)
+    from .. import generic4, gir
+    vocab = {e.op for lg, mod in gir.frontend_modules(model, gir.SEVEN) for e in gir.emissions_in_module(lg, mod) if e.op != "<dynamic>"}
+    rep.rule("C01.R14", "only declarations stay outside the unit initialiser: the test that keeps a top-level row at module level, evaluated "
+                        "over every operation name the frontends emit, selects *_decl rows and import/export rows only", 1)
+    generic4.check_operation_predicates(model, rep, "C01.R14", vocab)
+    rep.rule("C01.R15", "slice parts are picked by position consistently: `part = None if <test> else tokens[P]` holds exactly when position P is a "
+                        "colon or outside the token list", 5)
+    generic4.check_slice_positions(model, rep, "C01.R15")
+    rep.rule("C01.R16", "element indices count elements: a loop that numbers the children of a list/tuple literal with enumerate() does not skip "
+                        "children (comments) inside the counted loop", 2)
+    generic4.check_skip_counted_indices(model, rep, "C01.R16", [PY])
 
 
 def _r13_keyword_selectors(model: RepoModel, rep):
